@@ -20,6 +20,143 @@ import (
 
 func init() {
 	register("C05Extents", "C05", func() interface{} { return &FmtCase{} }, func(s interface{}) Result { return checkC05(s.(*FmtCase)) })
+	register("C05Join", "C05", func() interface{} { return &C05Join{} }, func(s interface{}) Result { return checkC05Join(s.(*C05Join)) })
+}
+
+// C05Join: JoinTo over a slice / array of values of a given static type.
+type C05Join struct {
+	Shape string   `json:"shape"` // strings, ifaces, ints, regstrs, nstrs, array, errors
+	Items []*Val   `json:"items"`
+	Delim *PrintS  `json:"delim"`
+	Pre   []*Op    `json:"pre,omitempty"` // what the destination holds before
+	Reg   []string `json:"reg,omitempty"`
+}
+
+// checkC05Join: JoinTo writes each element like Print does (so that what is
+// safe - by type, by registration - stays visible and everything else is
+// enveloped), with the delimiter in between.
+func checkC05Join(s *C05Join) Result {
+	var res Result
+	applyConfig(s.Reg, false, nil)
+	defer resetConfig()
+	b := &builder{}
+	var delim redact.RedactableString
+	if p, _ := guard(func() { delim = b.print(s.Delim) }); p {
+		return res // (a propagating nested panic while the delimiter is made)
+	}
+	var values interface{}
+	var elems []interface{}
+	switch s.Shape {
+	case "strings", "regstrs", "nstrs", "array", "errors":
+		var ss []string
+		for _, it := range s.Items {
+			ss = append(ss, it.str(0))
+		}
+		switch s.Shape {
+		case "strings":
+			values = ss
+			for _, x := range ss {
+				elems = append(elems, x)
+			}
+		case "regstrs":
+			var v []RegStr
+			for _, x := range ss {
+				v = append(v, RegStr(x))
+				elems = append(elems, RegStr(x))
+			}
+			values = v
+		case "nstrs":
+			var v []NStr
+			for _, x := range ss {
+				v = append(v, NStr(x))
+				elems = append(elems, NStr(x))
+			}
+			values = v
+		case "array":
+			var v [2]string
+			for i := 0; i < 2 && i < len(ss); i++ {
+				v[i] = ss[i]
+			}
+			values = v
+			// (not a slice: JoinTo prints the value as a whole)
+			elems = []interface{}{v}
+		case "errors":
+			var v []error
+			for _, x := range ss {
+				v = append(v, StrErr(x))
+				elems = append(elems, StrErr(x))
+			}
+			values = v
+		}
+	case "ints":
+		var v []int
+		for _, it := range s.Items {
+			v = append(v, int(it.int(0)))
+			elems = append(elems, int(it.int(0)))
+		}
+		values = v
+	default:
+		var v []interface{}
+		if p, _ := guard(func() { v = BuildAll(s.Items, 0) }); p {
+			return res
+		}
+		values, elems = v, v
+	}
+	res.NonTrivial = len(elems) >= 2 && len(s.Reg) > 0
+	res.Classes = append(res.Classes, "shape:"+s.Shape)
+	for _, k := range s.Reg {
+		if k == "str" || k == "int" {
+			res.Classes = append(res.Classes, "builtin-registered:"+k)
+		}
+	}
+	pre := compileOps(s.Pre, 0)
+	run := func(join bool, t func(f func(w redact.SafeWriter, tg target)) []byte) ([]byte, bool) {
+		var out []byte
+		p, _ := guard(func() {
+			out = t(func(w redact.SafeWriter, tg target) {
+				runCompiled(tg, pre, 0, nil)
+				if join {
+					redact.JoinTo(w, delim, values)
+					return
+				}
+				for i, e := range elems {
+					if i > 0 {
+						w.Print(delim)
+					}
+					w.Print(e)
+				}
+			})
+		})
+		return out, p
+	}
+	onSB := func(f func(w redact.SafeWriter, tg target)) []byte {
+		var sb redact.StringBuilder
+		f(&sb, &sbTarget{b: &sb})
+		return []byte(sb.RedactableString())
+	}
+	onPrinter := func(f func(w redact.SafeWriter, tg target)) []byte {
+		return []byte(redact.Sprintfn(func(p redact.SafePrinter) { f(p, &printerTarget{p: p}) }))
+	}
+	for _, dst := range []struct {
+		name string
+		t    func(f func(w redact.SafeWriter, tg target)) []byte
+	}{{"StringBuilder", onSB}, {"SafePrinter in Sprintfn", onPrinter}} {
+		got, p1 := run(true, dst.t)
+		want, p2 := run(false, dst.t)
+		if p1 != p2 {
+			res.Err = fmt.Errorf("JoinTo(%s, %s, %s of %d): panicked=%v, printing the elements one by one panicked=%v", dst.name, qs(string(delim)), s.Shape, len(elems), p1, p2)
+			return res
+		}
+		if p1 {
+			res.Classes = append(res.Classes, "panic-propagates")
+			continue
+		}
+		if !bytes.Equal(normE(got), normE(want)) {
+			res.Err = fmt.Errorf("JoinTo(%s, %s, %s of %d) gives %s; Print of each element with the delimiter in between gives %s", dst.name, qs(string(delim)), s.Shape, len(elems), q(got), q(want))
+			return res
+		}
+	}
+	return res
 }
 
 // StructI has only interface-typed exported fields, so that every field can
